@@ -321,6 +321,14 @@ def timing(ctx, comp, ex, cls, cn) -> int:
             mo = ex.obj(mem)
             row_shaped = mo is not None and mo.ctor[0] == "call" and dict(mo.ctor[3]).get("shape") == ("a", ("self",), "shape")
             ok = ok and any(k == "W.addr" for k, _ in ag["addr"]) and any(k == "W.en" for k, _ in ag["en"]) and (not row_shaped or any(k == "W.data" for k, _ in ag["data"]))
+            # a bank port created with the granularity of user port k takes that port's enable mask as it is (a reduced or
+            # foreign enable has a different width: the mask is cut to its lowest bit)
+            gk = dict(o.ctor[3]).get("granularity")
+            if gk is not None and gk[0] == "a" and gk[2] == "granularity" and _user_port(gk[1]) == "W":
+                n += 1
+                ens = [rhs for rhs, _, _ in got["en"]]
+                ctx.check(ens == [("a", gk[1], "en")], "C23.granular-enable", got["en"][0][2].site, f"{cls}.{name}.en[{cn}]", found="; ".join(tstr(x) for x in ens),
+                          required=f"{tstr(gk[1])}.en itself: the port was created with that user port's granularity, its enable is that port's granule mask")
             ctx.check(ok, "C23.write-port-coherent", site, f"{cls}.{name}[{cn}]", found=f"addr {_fmt(ag['addr'])}, en {_fmt(ag['en'])}, data {_fmt(_w(ag['data']))}",
                       required="address, enable and data of an inner write port come from user-write signals of one age")
         else:
